@@ -42,7 +42,8 @@ def main():
                 "with Python semantics + monotone inference. Non-trivial = at least one write on a non-empty field; distinct by "
                 "write sequence.")
     ctx.run_tlc("FieldWrites", "FieldWrites_mc.cfg", expect="ok")
-    for sw in ("ClearBeforeCopy", "CopyThroughSet", "UnhookedExtend", "AliasedFirstAssignment"):
+    ctx.run_tlc("FieldWrites", "FieldWrites_mc_churn.cfg", expect="ok")
+    for sw in ("ClearBeforeCopy", "CopyThroughSet", "UnhookedExtend", "AliasedFirstAssignment", "StaleReportedCache"):
         ctx.run_tlc("FieldWrites", f"FieldWrites_sw_{sw}.cfg", expect="violation")
     behs = [b["h"] for b in ctx.run_tlc("FieldWrites", "FieldWrites_gen.cfg", expect="ok").json_lines() if isinstance(b, dict)]
     if len(behs) < 5000:
@@ -54,8 +55,16 @@ def main():
         raise MachineryError("FieldWrites_sim: " + sim.error)
     deep = {repr(b["h"]): b["h"] for b in sim.json_lines() if isinstance(b, dict)}
     ctx.cov["five_write_sequences_sampled"] = len(deep)
+    # short-lived elements on a long-lived owner: before every write the elements outside a's fields die and are replaced
+    simc = ctx.run_tlc("FieldWrites", "FieldWrites_sim_churn.cfg", expect=None, simulate=f"num={1200 if thorough else 150}",
+                       depth=8, seed=ctx.seed + 2, workers=8)
+    if simc.error:
+        raise MachineryError("FieldWrites_sim_churn: " + simc.error)
+    churn = {repr(b["h"]): b["h"] for b in simc.json_lines() if isinstance(b, dict)}
+    ctx.cov["five_write_sequences_with_element_churn"] = len(churn)
     AK = ["list", "tuple", "gen", "iter"]
     cases = [{"h": h, "ak": AK[i % 4]} for i, h in enumerate(behs)] + [{"h": h, "ak": AK[i % 4]} for i, h in enumerate(deep.values())]
+    cases += [{"h": h, "ak": "list", "churn": True} for h in churn.values()]
     results = replay("writes", cases)
     ctx.replayed = len(cases)
     for c, r in zip(cases, results):
@@ -69,10 +78,11 @@ def main():
             pr = judge(m, o)
             if pr and bad is None:
                 bad = {"step": k, "op": m["op"], "problems": pr, "observed": o}
-        key = [c["ak"]] + [s["op"] for s in c["h"]]
+        key = [c["ak"] + ("+churn" if c.get("churn") else "")] + [s["op"] for s in c["h"]]
         ctx.case(key, nontrivial, sample={"writes": key, "final_list": c["h"][-1]["lst"], "final_set": c["h"][-1]["st"]})
         if bad:
             ctx.violation({"writes": key, **bad}, note="field contents or recorded relations differ from Python semantics + inference")
+    ctx.cov["address_reuse_observed_in_churn"] = sum(r.get("addr_reuse", 0) for r in results)
     ctx.exhaustive = False
     ctx.assumptions = ["the fact base is monotone: replacing or removing an element never retracts its relations",
                        "elements are distinct from the subject (no self relation)"]
